@@ -16,7 +16,7 @@ if [ -f $S/run.sh ]; then bash $S/run.sh $W > $W/.demo_clean.log 2>&1 && DEMO_CL
 ( cd $W && git apply --whitespace=nowarn $S/patch.diff ) || { res "patch-does-not-apply"; git -C /repo worktree remove --force $W; exit 1; }
 ( cd $W && go build ./... ) > $W/.build.log 2>&1
 # (three cmd packages fail to LINK on the unchanged tree too: fjl/memsize vs go1.23; ignore exactly those)
-if grep -v 'memsize\|^# github.com/kardiachain/go-kardia/\(cmd\|cmd/kaigo\|dualnode/eth/eth_client\)$\|^link: ' $W/.build.log | grep -q .; then res "does-not-build"; tail -5 $W/.build.log; git -C /repo worktree remove --force $W; exit 1; fi
+if grep -v "memsize\|function main is undeclared" $W/.build.log | grep -v "^# github.com/kardiachain/go-kardia/\(cmd\|cmd/kaigo\|dualnode/eth/eth_client\)$" | grep -q .; then res "does-not-build"; tail -5 $W/.build.log; git -C /repo worktree remove --force $W; exit 1; fi
 if [ -f $S/run.sh ]; then bash $S/run.sh $W > $W/.demo_mut.log 2>&1 && DEMO_MUT=pass || DEMO_MUT=fail; fi
 SUITE=skipped
 if [ "$FULL" = full ]; then
